@@ -218,13 +218,22 @@ let monitor_files which hist_file obs_file use_model =
         incr checked;
         (* a history is contract-respecting only relative to what the implementation itself
            answered: cut the trace before the first call the implementation rejected as not
-           callable (99) or answered with a panic (3) -- e.g. a poll the model considers legal
-           but that is a poll-after-completion for a diverged implementation *)
+           callable (99), or a POLL it answered with a panic (3) -- a poll the model considers
+           legal may be a poll-after-completion for a diverged implementation; a panic of any
+           other contract-respecting call stays in the trace and is judged by the monitor *)
+        let is_poll o =
+          match h.prim, (match o with c :: _ -> int_of_n c | [] -> -1) with
+          | ("event" | "mutex" | "semaphore"), 1 -> true
+          | "mpmc", (1 | 5 | 31) -> true
+          | "oneshot", 3 -> true
+          | "state", 4 -> true
+          | "timer", 3 -> true
+          | _ -> false in
         let rec cut = function
           | [] -> []
           | (o, ob) :: r ->
               (match ob.Base.o_res with
-               | c :: _ when (int_of_n c = 99 || int_of_n c = 3) && not use_model -> []
+               | c :: _ when not use_model && (int_of_n c = 99 || (int_of_n c = 3 && is_poll o)) -> []
                | _ -> (o, ob) :: cut r) in
         let tr = cut (List.combine h.ops obs) in
         match first_failure m which h.cfg tr with
